@@ -30,6 +30,8 @@ SHAPES = (
     ("dotted-stem", "sub/take.2.final.EXT"), ("hidden", "sub/.hidden.EXT"), ("absolute", "ABS/sub/x.EXT"), ("dot-dot", "sub/../sub/x.EXT"),
     ("non-ascii", "dïr/été.EXT"), ("blank-in-name", "sub/a b.EXT"), ("other-extension", "sub/x.EXT.bak"),
     ("dotted-dir-no-extension", "my.dir/x"),
+    # a name whose extension "says" another format than the content (the format is an argument of save(), the reader looks at the content)
+    ("json-extension", "sub/x.json"), ("upper-case-json-extension", "sub/X.JSON"), ("textgrid-extension", "sub/x.TextGrid"), ("txt-extension", "sub/x.txt"),
 )
 PRIOR = ("fresh", "over-a-longer-file", "over-a-shorter-file", "saved-twice",
          # near-copies of what is about to be written (the file went through another tool, or holds the previous version of the same data):
@@ -252,7 +254,7 @@ def part(prop):
             yield from _refused_cases()
     return InputPart("path-shapes-and-existing-files", gen, _dispatch,
                      rule="%d writer(s) x %d path shapes (bare name, ./, sub-directory, dots in the directory or the stem, no / another extension, "
-                          "hidden, absolute, .., non-ASCII, blank) x the path being fresh / holding a longer file / a shorter file / the same save / a near-copy of the new "
+                          "hidden, absolute, .., non-ASCII, blank, the extension of another format) x the path being fresh / holding a longer file / a shorter file / the same save / a near-copy of the new "
                           "content (CR LF or CR line ends, a byte-order mark, one character changed at the same length and time stamp, a blank line added): "
                           "same bytes as at a plain absolute path, exactly one file at exactly that path, reading through the path agrees, a "
                           "relative path follows the working directory; refused saves leave the directory untouched" % (len(ks), len(SHAPES)),
